@@ -177,8 +177,9 @@ CLAIMS = {
               "kernel extension per supported operation, nothing for unsupported ones, final add_kernel; a typestate rule on the pending kernel "
               "(flush before a sub-program is added) and a name-freshness rule for repetitions; determinism of names by a backward slice "
               "(ordered class names of the listing -> uuid5; no uuid1/uuid4/random/time/id/hash/set)."),
-        note=("Known findings (recorded, exit 0): the pending kernel is emitted after all sub-programs (O4) and repetitions re-use one kernel name "
-              "(O5). Trusted: documented instruction names; OpenQL's Program/Kernel API semantics. The cQASM text itself is not examined."),
+        note=("The two defects first recorded as known findings (pending kernel emitted after all sub-programs, O4; repetitions re-using one kernel name, O5) are "
+              "repaired in the repository (fix 4c9eb26, listed under 'fixed' in known_findings.json, which suppresses nothing). Trusted: documented instruction names; "
+              "OpenQL's Program/Kernel API semantics. The cQASM text itself is not examined."),
         technique="static analysis: literal table vs. spec, ordered-effect (typestate) rules on kernel/program calls, case table of the walk, backward slice of names",
     ),
     "C16": dict(
@@ -333,8 +334,45 @@ _ADDED = {
     "C19": " Bit-mask spellings are evaluated: module-level tables built by comprehensions with later item assignments, enum auto() values, shifts and bitwise operations on "
            "constants reduce under the concrete valuations of the truth table.",
 }
-for _k, _v in _ADDED.items():
-    if _v:
-        CLAIMS[_k]["text"] = CLAIMS[_k]["text"] + _v
+_ADDED3 = {
+    "C01": " (R12) The memoised start time returned for an operation is its own: the key of every keyed memo separates links whose results can differ (identity, a compared "
+           "counter-fed identifier, or every field the memoised closure reads is compared; shared C03.H5). (R13) A block's channel listing, de-duplicated through a hash "
+           "container, keeps the ALL identifier next to a specific one: ChannelIdentifier's hash separates the channels of a qubit. extend(): a return path that appends "
+           "nothing is accepted only when its condition implies the appended block is empty.",
+    "C03": " (H5) memo key soundness, (H6) a container handed out by a getter and changed in place by an observer is fresh on every call and not memoised "
+           "(type-resolved getter freshness analysis). Module-level names that functions rebind or change in place are treated as state, never folded to their initial value.",
+    "C04": " (D6) The start of what follows a block is memoised per link: the memo key separates links to different blocks (shared C03.H5).",
+    "C05": " (K4 separated) every value-compared operation class has a compared field carrying a per-instance identifier; (K9) apply_modifiers_to_self recurses over the "
+           "graph as it is after repeat() (shared C06.U1); (K10) on no path is the link object held by one operation stored into another, except the reviewed hand-over.",
+    "C06": " (U6) The table of a repetition registry (any container changed through self in the repetition modules) is bound per instance, not a class-level container. "
+           "(U3) extend() drops no appended block.",
+    "C07": " (A9) apply_modifiers / flatten hand back the same structure object the measurements' registries index (self, or an in-place method returning its receiver); "
+           "(A10) no link object is shared outside the reviewed hand-over (shared C05.K10).",
+    "C08": " (S6) extend() appends every node of each copy whatever the block holds (zero-length annotations included), so exporting before and after unrolling agree "
+           "(shared C01.R7 extend).",
+    "C09": " (P8) qubit listings handed out by one description and extended in place by a composite description are fresh lists (shared C03.H6); (P9) the multi-round "
+           "constructor unrolls before it flattens (shared C11.F3).",
+    "C10": " (T5) memo key soundness (shared C03.H5); (T6) the table of a duration registry is bound per instance.",
+    "C11": " (F6) An operation that pointed at a dissolved sub-circuit is re-linked behind the latest node sharing a channel: the leaf query skips no node (shared C01.R5). "
+           "The traversal bound MAX_GRAPH_DEPTH in force is read from the source and listed as an assumption (whether it suffices is a run-time matter, not decided).",
+    "C12": " (X6) No index computation is memoised under a key that lets two kernels / strategies with different offsets share an entry (C03.H5 restricted to "
+           "acquisition_indexing); create_sliced_arrays is read through thin delegating wrappers.",
+    "C13": " (M5) No link object is shared outside the reviewed hand-over (shared C05.K10): a nested block that equals its parent as a lookup key loses the registries of "
+           "later blocks (calibration indices -1).",
+    "C15": " The OpenQL order / repetition defects were repaired in the repository (fix 4c9eb26); O4/O5 hold on the current tree and report the defects again if the repair "
+           "is undone. (O5) also demands that kernels of a nested export get a name handed down fresh by the recursion. (O7) The export entry points write nothing that "
+           "outlives the call inside the OpenQL add-on (no session counter or name registry), so exporting twice gives the same names.",
+    "C16": " (Q4) An accepting exit inside a scan over the gates needs a participant guard that was completed over ALL gates before the scan. (Q10) get_required_parkings "
+           "asks get_requires_parking with the identifiers of the whole step (no free variable of an inner per-gate scan in the edge argument).",
+    "C17": " (Y10) gate_sequence_count is the length of the very list the positional accessors subscript; (Y11) handed-out qubit listings changed in place are fresh "
+           "(shared C03.H6).",
+    "C19": " (I5) De-duplication of channel identifiers through a hash container keeps every element: the hash separates channels of a qubit (shared C01.R13). A formula "
+           "that looks into the names (f-strings, split, join) is additionally evaluated on names built from its own separators: a counter-example is a violation, none "
+           "leaves the rule undecided.",
+}
+for _d in (_ADDED, _ADDED3):
+    for _k, _v in _d.items():
+        if _v:
+            CLAIMS[_k]["text"] = CLAIMS[_k]["text"] + _v
 NOTES += (" A rule that cannot read the code is isolated: the other rules of the property still run; a definite violation is reported (exit 1) even if another rule is "
           "undecided, and the check is undecided (exit 2) only when no rule found a violation and at least one could not decide.")
